@@ -575,9 +575,12 @@ func (b *BlockWise[C]) startSendingMessage(w *responsewriter.ResponseWriter[C], 
 }
 
 func (b *BlockWise[C]) getSentRequest(token message.Token) *pool.Message {
-	data, ok := b.sendingMessagesCache.LoadWithFunc(token.Hash(), func(value *cache.Element[*pool.Message]) *cache.Element[*pool.Message] {
-		if value == nil {
-			return nil
+	var sentRequest *pool.Message
+	now := time.Now()
+	b.sendingMessagesCache.LoadWithFunc(token.Hash(), func(value *cache.Element[*pool.Message]) *cache.Element[*pool.Message] {
+		// an expired request that the next sweep will remove is not paired with anything anymore
+		if value == nil || value.IsExpired(now) {
+			return value
 		}
 		v := value.Data()
 		msg := b.cc.AcquireMessage(v.Context())
@@ -585,10 +588,11 @@ func (b *BlockWise[C]) getSentRequest(token message.Token) *pool.Message {
 		msg.SetToken(v.Token())
 		msg.ResetOptionsTo(v.Options())
 		msg.SetType(v.Type())
-		return cache.NewElement(msg, value.ValidUntil.Load(), nil)
+		sentRequest = msg
+		return value
 	})
-	if ok {
-		return data.Data()
+	if sentRequest != nil {
+		return sentRequest
 	}
 	globalRequest, ok := b.getSentRequestFromOutside(token)
 	if ok {
